@@ -1120,6 +1120,10 @@ func (broker *Broker) startTrack(wg *sync.WaitGroup) {
 				// If the Q is still not empty, don't block when looking for a
 				// new payload to receive
 				wait = time.After(time.Second)
+			} else if in == nil {
+				// Everything has been handed over and nothing more can
+				// arrive (waiting on two nil channels would block forever)
+				return
 			}
 		}
 		payload = nil
